@@ -29,7 +29,7 @@ RULE = ("scenario = seeded antenna/elements/backend and 1-3 recordings requested
 COMPONENTS = C02.COMPONENTS
 ASSUMPTIONS = ["only the total drawn from the antenna is judged, not how it is split over requests",
                "a duration within 1e-9 (relative) of a block boundary may resolve either way"]
-PROBES = ["duration_exact_multiple", "duration_mode", "duration_zero_blocks", "retry_after_fault", "array_source",
+PROBES = ["backend_from_data", "from_data_request_exceeds_input", "from_data_whole_input", "duration_exact_multiple", "duration_mode", "duration_zero_blocks", "retry_after_fault", "array_source",
           "second_recording_same_backend", "non_dyadic_rate"]
 
 
@@ -56,11 +56,28 @@ def generate(rng, tier):
             op["fault"] = rng.choice([{"kind": "enospc", "at": rng.randint(1, 40)}, {"kind": "source", "at": rng.randint(1, 5)},
                                       {"kind": "interrupt", "at": rng.randint(1, 300)}])
         ops.append(op)
+    onto = None
+    if rng.random() < 0.3:
+        # a second backend built with from_data on the first recording: requests may exceed what the input holds,
+        # in which case "only as much data as is in the input" is recorded and the accounting is about those blocks
+        ops2 = []
+        for _ in range(rng.choice([1, 1, 2])):
+            o2 = {"op": "record", "digitize": rng.random() < 0.5, "template": False}
+            r = rng.random()
+            if r < 0.4:
+                o2["num_blocks"] = rng.choice([1, 2, 3, 5, 6, 9])
+            elif r < 0.8:
+                o2["dur"] = {"k": rng.choice([0, 1, 2, 3, 5, 7]), "mode": rng.choice(["exact", "half", "below", "above", "frac"]),
+                             "frac": rng.random()}
+            else:
+                o2["whole_input"] = True
+            ops2.append(o2)
+        onto = {"seed": rng.randrange(1 << 30), "num_subblocks": rng.randint(1, 4), "ops": ops2}
     helpers = {"tchans_per_block": rng.choice([1, 2, 4, 16]), "fftlength": rng.choice([1, 2, 4, 8, 256]),
                "int_factor": rng.choice([1, 2, 3, 51]), "obs_length": rng.choice([0.001, 0.37, 1.0, 5.0, 300.0])}
     return {"seams": {"clock_origin": 1.7e9 + rng.randrange(10 ** 6), "clock_jitter_seed": rng.randrange(1 << 20),
                       "entropy_salt": rng.randrange(1 << 20), "scratch": "c20"},
-            "ant": ant, "el": el, "be": be, "ops": ops, "helpers": helpers}
+            "ant": ant, "el": el, "be": be, "ops": ops, "helpers": helpers, "onto": onto}
 
 
 def simplify(sc):
@@ -113,106 +130,144 @@ def execute(sc, ctx):
               "C20/sizes/samples_per_block", lambda: "%r vs %d" % (backend.samples_per_block, spb))
     ctx.check(_close(backend.time_per_block, float(tpb)), "sizes", "C20/sizes/time_per_block",
               lambda: "%r vs %r" % (backend.time_per_block, float(tpb)))
-    nrec = 0
-    for j, op in enumerate(sc["ops"]):
-        ctx.op("record" + ("+fault" if op.get("fault") else "") + ("/dur" if "dur" in op else "/n"))
-        op2 = dict(op)
-        want_n = None
-        if "dur" in op:
-            ctx.hit("duration_mode")
-            obs = duration_of(op, tpb)
-            op2["obs_length"] = obs
-            x = Fraction(obs) / tpb
-            if op["dur"]["mode"] == "exact":
-                ctx.hit("duration_exact_multiple")
-        else:
-            want_n = op["num_blocks"]
-        attempts = [op2] if not op.get("fault") else [op2, dict(op2, fault=None)]
-        status = None
-        for a_i, o in enumerate(attempts):
-            o = dict(o)
-            o["_log"] = log
-            mark = log.mark()
-            t_before = antenna.t_start
-            stem = ctx.seams.path("r%d_%d" % (j, a_i if j % 2 else 0))       # every other retry re-uses the stem
-            status, exc = W.do_record(ctx, backend, stem, o, header={})
-            if status == "fault":
-                ctx.event("aborted")
-                continue
-            if a_i == 1:
-                ctx.hit("retry_after_fault")
-            break
-        if status != "ok":
-            if status == "fault":
-                continue
-            ctx.violation("record", "C20/record/raises:%s@%s" % (type(exc).__name__, W.innermost_setigen_frame(exc)), repr(exc))
-            return
-        if nrec >= 1:
-            ctx.hit("second_recording_same_backend")
-        nrec += 1
-        try:
-            files, per_file, blocks = W.parse_recording(stem)
-        except guppi.GuppiFormatError as e:
-            ctx.violation("framing", "C20/framing/" + e.cls, str(e))
-            return
-        n = len(blocks)
-        ctx.event("record", n, backend.total_obs_num_samples)
-        if want_n is not None:
-            if not ctx.check(n == want_n, "blocks", "C20/blocks/count", lambda: "recorded %d, requested %d" % (n, want_n)):
-                return
-        else:
-            lo, hi = x - 1 - Fraction(1, 10 ** 9) * max(x, 1), x + Fraction(1, 10 ** 9) * max(x, 1)
-            if not ctx.check(lo < n <= hi, "blocks", "C20/blocks/duration_rule/%s" % (
-                    "exceeds_request" if n > hi else "short_by_a_block_or_more"),
-                    lambda: "requested %.17g s = %.12g blocks, recorded %d" % (obs, float(x), n)):
-                return
-            if n == 0:
-                ctx.hit("duration_zero_blocks")
-        ctx.nontrivial = True
-        # conservation over the request log
-        reqs = log.since(mark)
-        drawn = sum(r.shape[-1] for r in reqs)
-        want = n * spb * B + (T * B if n > 0 else 0)
-        if not ctx.check(drawn == want, "conservation", "C20/conservation/samples_drawn_%s" % ("more" if drawn > want else "fewer"),
-                         lambda: "drew %d samples in %d requests, want %d*%d*%d + %d*%d = %d" % (
-                             drawn, len(reqs), n, spb, B, T, B, want)):
-            return
-        adv = Fraction(antenna.t_start) - Fraction(t_before)
-        exact = Fraction(drawn) / fs
-        tol = 0 if ant["dyadic"] else (2 * len(reqs) + 2) * math.ulp(max(abs(antenna.t_start), abs(t_before), float(exact), 1e-300))
-        if not ctx.check(abs(adv - exact) <= tol, "conservation", "C20/conservation/clock_advance/%s" % (
-                "dyadic" if ant["dyadic"] else "float"),
-                lambda: "clock advanced %.17g, %d samples at %r Hz = %.17g" % (float(adv), drawn, ant["fs"], float(exact))):
-            return
-        # reported integers and ratios
-        ctx.check(backend.num_blocks == n, "report", "C20/report/num_blocks", lambda: "%r vs %d" % (backend.num_blocks, n))
-        ctx.check(backend.total_obs_num_samples == n * spb * B, "report", "C20/report/total_obs_num_samples",
-                  lambda: "reported %r, exact %d (n=%d spb=%d B=%d fs=%r)" % (backend.total_obs_num_samples, n * spb * B, n, spb, B, ant["fs"]))
-        ctx.check(_close(backend.obs_length, float(n * tpb)), "report", "C20/report/obs_length",
-                  lambda: "%r vs %r" % (backend.obs_length, float(n * tpb)))
-        if blocks:
-            h = blocks[0]["header"]
-            ctx.check(_close(h.get("SCANLEN", float("nan")), float(n * tpb)), "report", "C20/report/SCANLEN",
-                      lambda: "%r vs %r" % (h.get("SCANLEN"), float(n * tpb)))
-            ctx.check(isinstance(h.get("PKTSTOP"), int) and isinstance(h.get("PKTSTART"), int)
-                      and h["PKTSTOP"] - h["PKTSTART"] == n * spb, "report", "C20/report/PKTSTOP",
-                      lambda: "PKTSTART %r PKTSTOP %r n*spb %d" % (h.get("PKTSTART"), h.get("PKTSTOP"), n * spb))
-        # stand-alone helper for the same inputs
-        kw = dict(num_antennas=ant["n_ant"], sample_rate=ant["fs"], block_size=be["block_size"], num_bits=el["bits"],
-                  num_pols=ant["pols"], num_branches=B, num_chans=be["num_chans"])
-        got = sv.get_total_obs_num_samples(num_blocks=n, length_mode="num_blocks", **kw)
-        ctx.check(got == n * spb * B, "helpers", "C20/helpers/get_total_obs_num_samples/num_blocks",
-                  lambda: "%r vs %d" % (got, n * spb * B))
-        if "dur" in op:
-            got = sv.get_total_obs_num_samples(obs_length=obs, length_mode="obs_length", **kw)
-            near = abs(x - round(x)) <= Fraction(1, 10 ** 9) * max(x, 1)
-            ok = got == n * spb * B or (near and got in ((n - 1) * spb * B, (n + 1) * spb * B))
-            ctx.check(ok, "helpers", "C20/helpers/get_total_obs_num_samples/obs_length",
-                      lambda: "helper %r, backend recorded %d blocks = %d samples" % (got, n, n * spb * B))
-            gnb = backend.get_num_blocks(obs)
-            ctx.check(gnb == n, "helpers", "C20/helpers/get_num_blocks_differs_from_record", lambda: "%r vs %d" % (gnb, n))
-        ctx.sim_time += drawn / ant["fs"]
-        if ctx.violations and ctx.stop_on_violation:
+    state = {"nrec": 0, "first_ok_stem": None, "first_ok_n": 0}
+
+    def run_ops(ops, backend, antenna, log, prefix, clip):
+      for j, op in enumerate(ops):
+          ctx.op("record" + ("+fault" if op.get("fault") else "") + ("/dur" if "dur" in op else "/n"))
+          op2 = dict(op)
+          want_n = None
+          if "dur" in op:
+              ctx.hit("duration_mode")
+              obs = duration_of(op, tpb)
+              op2["obs_length"] = obs
+              x = Fraction(obs) / tpb
+              if op["dur"]["mode"] == "exact":
+                  ctx.hit("duration_exact_multiple")
+          elif op.get("whole_input"):
+              want_n = clip
+              ctx.hit("from_data_whole_input")
+          else:
+              want_n = op["num_blocks"]
+          if clip is not None and want_n is not None and want_n > clip:
+              want_n = clip
+              ctx.hit("from_data_request_exceeds_input")
+          attempts = [op2] if not op.get("fault") else [op2, dict(op2, fault=None)]
+          status = None
+          for a_i, o in enumerate(attempts):
+              o = dict(o)
+              o["_log"] = log
+              mark = log.mark()
+              t_before = antenna.t_start
+              stem = ctx.seams.path("%s%d_%d" % (prefix, j, a_i if j % 2 else 0))       # every other retry re-uses the stem
+              status, exc = W.do_record(ctx, backend, stem, o, header={})
+              if status == "fault":
+                  ctx.event("aborted")
+                  continue
+              if a_i == 1:
+                  ctx.hit("retry_after_fault")
+              break
+          if status != "ok":
+              if status == "fault":
+                  continue
+              ctx.violation("record", "C20/record/raises:%s@%s" % (type(exc).__name__, W.innermost_setigen_frame(exc)), repr(exc))
+              return False
+          if state["nrec"] >= 1 and clip is None:
+              ctx.hit("second_recording_same_backend")
+          state["nrec"] += 1
+          try:
+              files, per_file, blocks = W.parse_recording(stem)
+          except guppi.GuppiFormatError as e:
+              ctx.violation("framing", "C20/framing/" + e.cls, str(e))
+              return False
+          n = len(blocks)
+          ctx.event("record", n, backend.total_obs_num_samples)
+          if clip is None and state["first_ok_stem"] is None:
+              state["first_ok_stem"], state["first_ok_n"] = stem, n
+          if want_n is not None:
+              if not ctx.check(n == want_n, "blocks", "C20/blocks/count", lambda: "recorded %d, requested %d" % (n, want_n)):
+                  return False
+          elif clip is not None and x >= clip + 1:
+              # the request exceeds the input: the whole input, and nothing more, is recorded
+              ctx.hit("from_data_request_exceeds_input")
+              if not ctx.check(n == clip, "blocks", "C20/blocks/from_data_clip", lambda: "recorded %d, input holds %d" % (n, clip)):
+                  return False
+          else:
+              lo, hi = x - 1 - Fraction(1, 10 ** 9) * max(x, 1), x + Fraction(1, 10 ** 9) * max(x, 1)
+              if clip is not None:
+                  hi = min(hi, clip)
+              if not ctx.check(lo < n <= hi, "blocks", "C20/blocks/duration_rule/%s" % (
+                      "exceeds_request" if n > hi else "short_by_a_block_or_more"),
+                      lambda: "requested %.17g s = %.12g blocks, recorded %d" % (obs, float(x), n)):
+                  return False
+              if n == 0:
+                  ctx.hit("duration_zero_blocks")
+          ctx.nontrivial = True
+          # conservation over the request log
+          reqs = log.since(mark)
+          drawn = sum(r.shape[-1] for r in reqs)
+          want = n * spb * B + (T * B if n > 0 else 0)
+          if not ctx.check(drawn == want, "conservation", "C20/conservation/samples_drawn_%s" % ("more" if drawn > want else "fewer"),
+                           lambda: "drew %d samples in %d requests, want %d*%d*%d + %d*%d = %d" % (
+                               drawn, len(reqs), n, spb, B, T, B, want)):
+              return False
+          adv = Fraction(antenna.t_start) - Fraction(t_before)
+          exact = Fraction(drawn) / fs
+          tol = 0 if ant["dyadic"] else (2 * len(reqs) + 2) * math.ulp(max(abs(antenna.t_start), abs(t_before), float(exact), 1e-300))
+          if not ctx.check(abs(adv - exact) <= tol, "conservation", "C20/conservation/clock_advance/%s" % (
+                  "dyadic" if ant["dyadic"] else "float"),
+                  lambda: "clock advanced %.17g, %d samples at %r Hz = %.17g" % (float(adv), drawn, ant["fs"], float(exact))):
+              return False
+          # reported integers and ratios
+          ctx.check(backend.num_blocks == n, "report", "C20/report/num_blocks", lambda: "%r vs %d" % (backend.num_blocks, n))
+          ctx.check(backend.total_obs_num_samples == n * spb * B, "report", "C20/report/total_obs_num_samples",
+                    lambda: "reported %r, exact %d (n=%d spb=%d B=%d fs=%r)" % (backend.total_obs_num_samples, n * spb * B, n, spb, B, ant["fs"]))
+          ctx.check(_close(backend.obs_length, float(n * tpb)), "report", "C20/report/obs_length",
+                    lambda: "%r vs %r" % (backend.obs_length, float(n * tpb)))
+          if blocks:
+              h = blocks[0]["header"]
+              ctx.check(_close(h.get("SCANLEN", float("nan")), float(n * tpb)), "report", "C20/report/SCANLEN",
+                        lambda: "%r vs %r" % (h.get("SCANLEN"), float(n * tpb)))
+              pk0 = h.get("PKTSTART")
+              if clip is not None and isinstance(pk0, str) and pk0.strip().lstrip("-").isdigit():
+                  pk0 = int(pk0)      # cards inherited from the input file are re-written as quoted strings (see C04)
+              ctx.check(isinstance(h.get("PKTSTOP"), int) and isinstance(pk0, int)
+                        and h["PKTSTOP"] - pk0 == n * spb, "report", "C20/report/PKTSTOP",
+                        lambda: "PKTSTART %r PKTSTOP %r n*spb %d" % (h.get("PKTSTART"), h.get("PKTSTOP"), n * spb))
+          # stand-alone helper for the same inputs
+          kw = dict(num_antennas=ant["n_ant"], sample_rate=ant["fs"], block_size=be["block_size"], num_bits=el["bits"],
+                    num_pols=ant["pols"], num_branches=B, num_chans=be["num_chans"])
+          got = sv.get_total_obs_num_samples(num_blocks=n, length_mode="num_blocks", **kw)
+          ctx.check(got == n * spb * B, "helpers", "C20/helpers/get_total_obs_num_samples/num_blocks",
+                    lambda: "%r vs %d" % (got, n * spb * B))
+          if "dur" in op and (clip is None or x < clip + 1 - Fraction(1, 10 ** 9) * max(x, 1)):
+              got = sv.get_total_obs_num_samples(obs_length=obs, length_mode="obs_length", **kw)
+              near = abs(x - round(x)) <= Fraction(1, 10 ** 9) * max(x, 1)
+              ok = got == n * spb * B or (near and got in ((n - 1) * spb * B, (n + 1) * spb * B))
+              ctx.check(ok, "helpers", "C20/helpers/get_total_obs_num_samples/obs_length",
+                        lambda: "helper %r, backend recorded %d blocks = %d samples" % (got, n, n * spb * B))
+              gnb = backend.get_num_blocks(obs)
+              ctx.check(gnb == n, "helpers", "C20/helpers/get_num_blocks_differs_from_record", lambda: "%r vs %d" % (gnb, n))
+          ctx.sim_time += drawn / ant["fs"]
+          if ctx.violations and ctx.stop_on_violation:
+              return False
+      return True
+
+    if not run_ops(sc["ops"], backend, antenna, log, "r", None):
+        return
+    onto = sc.get("onto")
+    if onto and state["first_ok_stem"] and state["first_ok_n"] > 0:
+        ctx.hit("backend_from_data")
+        ant2 = dict(copy.deepcopy(ant), seed=onto["seed"])
+        antenna2 = W.build_antenna(ant2)
+        log2 = W.RequestLog(antenna2, ctx)
+        dig, fb, _ = W.build_elements(el)
+        backend2 = sv.RawVoltageBackend.from_data(state["first_ok_stem"], antenna2, digitizer=dig, filterbank=fb,
+                                                  start_chan=be["start_chan"], num_subblocks=onto["num_subblocks"])
+        for row in backend2.filterbank:
+            for f in row:
+                f.estimate_channelized_stds(factor=50, seed=onto["seed"] % 1000)
+        if not run_ops(onto["ops"], backend2, antenna2, log2, "o", state["first_ok_n"]):
             return
     # helper cross-checks on this configuration
     hp = sc["helpers"]
